@@ -1,24 +1,34 @@
 // Package parith holds the exhaustive arithmetic parts of properties C01 (part a) and C07 (part c).
 package parith
 
-// Signatures of confirmed, still open defects of /repo. While an entry is true the enumerations and
-// generators steer away from exactly that finding's input class (counted with vlib.Excluded) so
-// that the search continues behind it. Set an entry to false (or run with
-// VERIF_ARITH_NOEXCLUDE=1) to see the defect again.
+// Signatures of confirmed, still open defects of /repo (each re-established against the REAL
+// control plane and BatchContext.IsBatchReady; minimal replays in findings/<sig>.json). While an
+// entry is true the enumeration and the generator steer away from exactly that finding's input
+// class (counted with vlib.Excluded) so that the search continues behind it. Set an entry to false
+// once /repo carries the fix; VERIF_ARITH_NOEXCLUDE=all (or a comma-separated list of signatures)
+// switches the steering off for one run without editing this file.
 var knownOpen = map[string]bool{
-	// partition-style CloneSet, percent plan whose stable remainder s = n - ceil(p*n/100) satisfies
-	// 1 <= s < n/100 (i.e. plan "99%", n > 100, n not a multiple of 100):
-	// control.ParseIntegerAsPercentageIfPossible falls back to partition "1%", which Kruise restores
-	// (rounding up) to ceil(n/100) > s old pods, so updated = n - ceil(n/100) < DesiredUpdatedReplicas
-	// and BatchContext.IsBatchReady never returns nil.
-	sigOnePercentFallback: true,
-	// blue-green CloneSet, integer plan k > n: DesiredUpdatedReplicas = k is not clamped to the
-	// workload size although a CloneSet with maxSurge k never runs more than n updated pods.
-	sigBGCloneSetIntAboveReplicas: true,
-	// partition-style Deployment, batch i-1 planned as a percentage and batch i as an integer (or
-	// the reverse): control.IsCurrentMoreThanOrEqualToDesired compares both scaled to 10000000, so
-	// "50%" counts as >= 80 and the partition is never raised.
-	sigDeploymentMixedUnits: true,
+	// partition-style CloneSet, percentage plan whose old-revision remainder s = n - ceil(p*n/100)
+	// satisfies 1 <= s < n/100 (equivalently: plan "99%", n > 100, n not a multiple of 100; 297
+	// points for n <= 400): control.ParseIntegerAsPercentageIfPossible answers partition "1%", which
+	// Kruise restores (rounding up) to ceil(n/100) > s old pods, so a fully complying CloneSet runs
+	// n - ceil(n/100) < DesiredUpdatedReplicas updated pods and IsBatchReady never returns nil.
+	// Minimal: 101 replicas, plan ["99%"]. Reachable: Rollout step `replicas: 99%` without traffic
+	// on a partition-style CloneSet is admitted by the validating webhook.
+	sigOnePercentFallback: false, // repaired by a "fix:" commit in /repo, see /verif/known_findings.json
+
+	// blue-green CloneSet, integer plan k > n: bluegreenstyle/cloneset CalculateBatchContext takes
+	// DesiredUpdatedReplicas = k without clamping to the workload size (every other control plane
+	// clamps), but a CloneSet with maxSurge k never runs more than n updated pods.
+	// Minimal: 1 replica, plan [2]. Reachable: the webhook admits any positive integer `replicas`.
+	sigBGCloneSetIntAboveReplicas: false, // repaired by a "fix:" commit in /repo, see /verif/known_findings.json
+
+	// partition-style Deployment, an earlier batch planned as a percentage and the current one as
+	// an integer: control.IsCurrentMoreThanOrEqualToDesired scales both against 10000000, so the
+	// stored "1%" (=100000) counts as >= 2 and UpgradeBatch never raises the partition.
+	// Minimal: 2 replicas, plan ["1%", 2]. Reachable: the webhook skips the monotonicity comparison
+	// for steps of different units, and the CRD admits int-or-string per step.
+	sigDeploymentMixedUnits: false, // repaired by a "fix:" commit in /repo, see /verif/known_findings.json
 }
 
 const (
